@@ -40,3 +40,10 @@ func rndFromWire(b []byte) (shwap.RowNamespaceData, error) {
 	}
 	return shwap.RowNamespaceDataFromProto(&p)
 }
+
+func tailStr(s string, n int) string {
+	if len(s) > n {
+		return s[len(s)-n:]
+	}
+	return s
+}
